@@ -89,3 +89,18 @@ Example C01_nonvacuous :
   exists bytes, file_bytes DI32 (writer_flags 0 true) [(ex_xs, ex_table); ([], []); (ex_xs, ex_table)] = Ok bytes /\
     decode_file DI32 bytes = Ok (ex_xs ++ ex_xs).
 Proof. exact file_example. Qed.
+
+(* ---- the compressor's lookup of the range of a number (CompressionTable: 16-way tree built by
+   from_sorted, Model/Words.v) terminates and finds exactly the first range containing the number,
+   which is what the writer model uses (find_prefix) ---- *)
+From QCo.Model Require Import Words.
+From QCo.Lemmas Require Import WordsL.
+
+Theorem C01_table_build_terminates : forall umax fuel ps,
+  ct_pos ps -> (length ps < fuel)%nat -> ct_from_sorted fuel umax ps <> None.
+Proof. exact ct_from_sorted_total. Qed.
+
+Theorem C01_table_search_is_find_prefix : forall umax ps u,
+  ct_valid ps -> ct_pos ps -> ps <> [] ->
+  ct_search umax ps u = find_prefix ps u.
+Proof. exact ct_search_correct. Qed.
